@@ -52,7 +52,8 @@ pub fn real_lang(game: Game, language: LanguageKey) -> RealLang {
 #[derive(Clone, Debug)]
 pub struct BodyOpts { pub max_stmts: usize, pub registers: bool, pub control_flow: bool, pub strings_only_safe: bool, pub neg_times: bool }
 
-pub struct RealBody<'a, 'b> { pub t: &'a mut Tape<'b>, pub lang: &'a RealLang, pub opts: BodyOpts, next_label: usize, time: i32, pub feats: Vec<&'static str>, budget: usize, max_time: i32 }
+pub struct RealBody<'a, 'b> { pub t: &'a mut Tape<'b>, pub lang: &'a RealLang, pub opts: BodyOpts, next_label: usize, time: i32, pub feats: Vec<&'static str>, budget: usize, max_time: i32, /// (label, time in effect where it is written)
+    pub labels: Vec<(String, i32)> }
 
 fn print_arg(a: &Arg, p: &Param) -> String {
     match a {
@@ -64,7 +65,7 @@ fn print_arg(a: &Arg, p: &Param) -> String {
 }
 
 impl<'a, 'b> RealBody<'a, 'b> {
-    pub fn new(t: &'a mut Tape<'b>, lang: &'a RealLang, opts: BodyOpts, max_time: i32) -> Self { let budget = opts.max_stmts; RealBody { t, lang, opts, next_label: 0, time: 0, feats: vec![], budget, max_time } }
+    pub fn new(t: &'a mut Tape<'b>, lang: &'a RealLang, opts: BodyOpts, max_time: i32) -> Self { let budget = opts.max_stmts; RealBody { t, lang, opts, next_label: 0, time: 0, feats: vec![], budget, max_time, labels: vec![] } }
     fn feat(&mut self, f: &'static str) { if !self.feats.contains(&f) { self.feats.push(f); } }
 
     /// a call of a non-intrinsic instruction with arguments valid for its signature
@@ -124,8 +125,8 @@ impl<'a, 'b> RealBody<'a, 'b> {
                     // forward or backward goto
                     self.next_label += 1; let l = format!("lab{}", self.next_label);
                     self.feat("goto");
-                    if self.t.bool() { let inner = self.some_stmts(2, depth, ind); out.push_str(&format!("{}goto {};\n{}{}:\n", pad, l, inner, l)); }
-                    else { let inner = self.some_stmts(2, depth, ind); out.push_str(&format!("{}:\n{}{}goto {};\n", l, inner, pad, l)); }
+                    if self.t.bool() { let inner = self.some_stmts(2, depth, ind); self.labels.push((l.clone(), self.time)); out.push_str(&format!("{}goto {};\n{}{}:\n", pad, l, inner, l)); }
+                    else { self.labels.push((l.clone(), self.time)); let inner = self.some_stmts(2, depth, ind); out.push_str(&format!("{}:\n{}{}goto {};\n", l, inner, pad, l)); }
                 }
                 9 if self.opts.control_flow && self.lang.has_jmp && depth > 0 => {
                     self.feat("loop");
@@ -174,7 +175,8 @@ impl<'a, 'b> RealBody<'a, 'b> {
 // Files
 
 #[derive(Clone, Debug)]
-pub struct GenFile { pub fmt: Fmt, pub game: String, pub text: String, pub feats: Vec<String> }
+pub struct GenFile { pub fmt: Fmt, pub game: String, pub text: String, pub feats: Vec<String>, /// per script, in file order: (label, time)
+    pub labels: Vec<Vec<(String, i32)>> }
 
 pub const ANM_GAMES: &[&str] = &["th06", "th07", "th08", "th095", "th10", "th12", "th14", "th18"];
 pub const STD_GAMES: &[&str] = &["th06", "th08", "th095", "th12", "th17"];
@@ -200,6 +202,7 @@ pub const TEXTS: &[&str] = &["dm", " ", "stage01.anm", "bgm/th08_08.mid", "   Sc
 
 pub fn gen_file(t: &mut Tape, fmt: Fmt, game: &str, body_stmts: usize) -> GenFile {
     let mut feats: Vec<String> = vec![];
+    let mut labels: Vec<Vec<(String, i32)>> = vec![];
     let g = crate::files::game_from_str(game);
     let text = match fmt {
         Fmt::Anm => {
@@ -218,9 +221,10 @@ pub fn gen_file(t: &mut Tape, fmt: Fmt, game: &str, body_stmts: usize) -> GenFil
                     next_id += 1;
                     sprites.push(format!("sprite{}_{}: {{{}x: {}, y: {}, w: {}, h: {}}}", e, s, id, fmt_f32(*t.pick(&[0.0f32, 1.0, 16.5])), fmt_f32(*t.pick(&[0.0f32, 32.0])), fmt_f32(*t.pick(&[512.0f32, 16.0, 1.0])), fmt_f32(*t.pick(&[480.0f32, 16.0]))));
                 }
-                let extra = if g >= Game::Th10 && t.chance(1, 3) { format!("    low_res_scale: {},\n", t.bool()) } else { String::new() };
+                // (the pre-TH11 header has no low_res_scale / offset_x / offset_y; the later one has no colorkey)
+                let extra = if g >= Game::Th11 && t.chance(1, 3) { format!("    low_res_scale: {},\n", t.bool()) } else { String::new() };
                 let colorkey = if g < Game::Th07 && t.chance(1, 2) { "    colorkey: 0xff00ff,\n".to_string() } else { String::new() };
-                let offs = if t.chance(1, 4) { format!("    offset_x: {},\n    offset_y: {},\n", t.below(9), t.below(9)) } else { String::new() };
+                let offs = if g >= Game::Th11 && t.chance(1, 4) { format!("    offset_x: {},\n    offset_y: {},\n", t.below(9), t.below(9)) } else { String::new() };
                 let path2 = if g < Game::Th11 && t.chance(1, 5) { "    path_2: \"subdir/file_a.png\",\n".to_string() } else { String::new() };
                 let path = *t.pick(&["subdir/file.png", "a.png", "@R", "data/ascii/ascii.png", "サブ/画像.png"]);
                 let img = if !path.starts_with('@') && t.chance(1, 3) {
@@ -241,6 +245,7 @@ pub fn gen_file(t: &mut Tape, fmt: Fmt, game: &str, body_stmts: usize) -> GenFil
                     let mut body = b.stmts(n, 2, 1);
                     // EoSD ANM: the terminating instructions (0, 15) may only come last; avoid them mid-script
                     if g == Game::Th06 { body = body.lines().filter(|l| !(l.trim_start().starts_with("ins_0(") || l.trim_start().starts_with("ins_15("))).map(|l| format!("{}\n", l)).collect(); }
+                    labels.push(b.labels.clone());
                     for f in &b.feats { if !feats.contains(&f.to_string()) { feats.push(f.to_string()); } }
                     let num = if t.chance(1, 2) { format!("{} ", next_script) } else { String::new() };
                     out.push_str(&format!("script {}script{} {{\n{}}}\n\n", num, next_script, body));
@@ -272,6 +277,7 @@ pub fn gen_file(t: &mut Tape, fmt: Fmt, game: &str, body_stmts: usize) -> GenFil
             let mut b = RealBody::new(t, &lang, opts, 100000);
             let n = b.t.below(body_stmts + 1);
             let body = b.stmts(n, 2, 1);
+            labels.push(b.labels.clone());
             for f in &b.feats { feats.push(f.to_string()); }
             format!("meta {{\n{}    objects: {{\n{}\n    }},\n    instances: [{}],\n}}\n\nscript main {{\n{}}}\n", head, objs.join(",\n"), insts.join(", "), body)
         }
@@ -297,7 +303,8 @@ pub fn gen_file(t: &mut Tape, fmt: Fmt, game: &str, body_stmts: usize) -> GenFil
                 let mut b = RealBody::new(t, &lang, opts, 30000);
                 let n = b.t.below(body_stmts + 1);
                 let body = b.stmts(n, 0, 1);
-                for f in &b.feats { if !feats.contains(&f.to_string()) { feats.push(f.to_string()); } }
+                labels.push(b.labels.clone());
+                    for f in &b.feats { if !feats.contains(&f.to_string()) { feats.push(f.to_string()); } }
                 out.push_str(&format!("script script{} {{\n{}}}\n\n", i, body));
             }
             out
@@ -324,7 +331,8 @@ pub fn gen_file(t: &mut Tape, fmt: Fmt, game: &str, body_stmts: usize) -> GenFil
                 let mut b = RealBody::new(t, &tl, opts, 30000);
                 let n = b.t.below(4);
                 let body = b.stmts(n, 0, 1);
-                for f in &b.feats { if !feats.contains(&f.to_string()) { feats.push(f.to_string()); } }
+                labels.push(b.labels.clone());
+                    for f in &b.feats { if !feats.contains(&f.to_string()) { feats.push(f.to_string()); } }
                 out.push_str(&format!("script timeline{} {{\n{}}}\n\n", i, body));
             }
             for i in 0..nsubs {
@@ -332,7 +340,8 @@ pub fn gen_file(t: &mut Tape, fmt: Fmt, game: &str, body_stmts: usize) -> GenFil
                 let mut b = RealBody::new(t, &lang, opts, 30000);
                 let n = b.t.below(body_stmts + 1);
                 let body = b.stmts(n, 2, 1);
-                for f in &b.feats { if !feats.contains(&f.to_string()) { feats.push(f.to_string()); } }
+                labels.push(b.labels.clone());
+                    for f in &b.feats { if !feats.contains(&f.to_string()) { feats.push(f.to_string()); } }
                 out.push_str(&format!("void Sub{}() {{\n{}}}\n\n", i, body));
             }
             out
@@ -340,7 +349,7 @@ pub fn gen_file(t: &mut Tape, fmt: Fmt, game: &str, body_stmts: usize) -> GenFil
     };
     let _ = StrSize::Block(4);
     feats.sort(); feats.dedup();
-    GenFile { fmt, game: game.to_string(), text, feats }
+    GenFile { fmt, game: game.to_string(), text, feats, labels }
 }
 
 // =============================================================================
